@@ -116,6 +116,21 @@ class DefiniteBug(Exception):
         self.site = exc.site
 
 
+def returning(paths, what=""):
+    """All returning paths (the rule is then applied to each one); DefiniteBug if every path fails definitely,
+    Unsupported if none returns."""
+    rets = [p for p in paths if p.outcome == "return"]
+    if not rets and paths and all(p.outcome == "raise" and getattr(p.value, "definite_bug", False) for p in paths):
+        raise DefiniteBug(paths[0].value)
+    if not rets:
+        raise Unsupported("%s: no returning path (%s)" % (what, [str(p.value)[:80] for p in paths][:2]))
+    return rets
+
+
+def path_tag(p):
+    return ",".join("%s=%s" % (c[1][:24], c[2]) for c in p.conds[:4])
+
+
 def single(paths, what=""):
     """Exactly one returning path expected."""
     rets = [p for p in paths if p.outcome == "return"]
